@@ -69,6 +69,8 @@ def oracle_lr(run):
     unlocks = {}
     waiting = None      # (writer tid, counter name, index of the load that found it non-zero): C14 writer progress
     call_idx = {}       # tid -> index of its current `call ls`
+    lastmod = {}        # atomic cell -> (index, tid) of its last modification
+    lastseen = {}       # (tid, cell) -> index of the thread's last operation on the cell
     for idx, (tid, t) in enumerate(evs):
         k = t[0]
         # ---- C14, writer side: "a writer is delayed only by read handles that are still held" ----------------------
@@ -90,6 +92,8 @@ def oracle_lr(run):
         if k == "call":
             in_call[tid] = t[1]
             prims[tid] = 0
+            if t[1] in ("rel", "ls"):
+                side.pop(tid, None)     # the client stops reading through a handle when it calls its destruction
             if t[1] == "ls":
                 call_idx[tid] = idx
                 lo[tid] = done_eff
@@ -134,15 +138,16 @@ def oracle_lr(run):
             holder = None
             unlocks[tid] = unlocks.get(tid, 0) + 1
         elif k in ("ald", "ast", "rmw", "axc", "cas"):
-            if in_call.get(tid) in ("ls", "rel"):
+            # a FAILED compare-exchange that is spurious, or that failed because another READER changed the cell since this
+            # thread last looked at it, is a retry caused by readers, not waiting for a writer: it does not count
+            failed_cas = k == "cas" and len(t) > 5 and t[5] == "0"
+            justified = failed_cas and ("spurious" in t or (lastmod.get(t[1], (-1, None))[0] > lastseen.get((tid, t[1]), -1)
+                                                          and lastmod[t[1]][1] != holder))
+            if k in ("ast", "rmw", "axc") or (k == "cas" and not failed_cas):
+                lastmod[t[1]] = (idx, tid)
+            lastseen[(tid, t[1])] = idx
+            if in_call.get(tid) in ("ls", "rel") and not justified:
                 prims[tid] = prims.get(tid, 0) + 1
-            if k == "ald" and t[1] == "rl" and in_call.get(tid) == "ls":
-                s = "left" if t[3] == "1" else "right"
-                side[tid] = s
-                if s in writing:
-                    return "thread %d got a handle to copy %s while thread %d is writing it" % (tid, s, writing[s])
-            elif k == "rmw" and t[4] == "-1" and in_call.get(tid) == "rel":
-                side.pop(tid, None)
         elif k in ("pwb", "cpb"):
             c = t[1]
             if holder != tid:
@@ -164,8 +169,13 @@ def oracle_lr(run):
             del writing[c]
         elif k == "prd":
             c = t[1]
-            if side.get(tid) != c:
-                return "thread %d read copy %s, its handle points to %s" % (tid, c, side.get(tid))
+            # the copy a handle points to is learnt from the first read through it (stated on the reads and the write
+            # windows only, not on how lock_shared / the deleter are coded)
+            if tid in side and side[tid] != c:
+                return "thread %d read copy %s, its handle pointed to %s before" % (tid, c, side.get(tid))
+            side[tid] = c
+            if c in writing:
+                return "thread %d read copy %s through its handle while thread %d is writing it" % (tid, c, writing[c])
             v = _lst(t[2])
             n = len(v)
             if v != E[:n]:
